@@ -23,6 +23,7 @@ RULE = (
     "(pattern, name) pairs: exhaustive over alphabet 'a*\\.[b' up to the tier's bound (distinct by construction; "
     "non-trivial = pattern contains '*' or '\\'), plus random longer pairs; generated inventories x filter "
     "quadruples (distinct by hash of inventory+filters; non-trivial = >=1 wildcard filter and >=2 entries); "
+    "the same filter cases on inventories written to v2 files and read back by MyST's and Sphinx' reader; every pattern up to length 4 through both filter functions in each of the four coordinates (exhaustive); "
     "documents with inv: links (distinct by text)"
 )
 ASSUME = [
